@@ -38,9 +38,25 @@ namespace ip {
 	template<typename Protocol>
 	basic_resolver<Protocol>::~basic_resolver()
 	{
+		// a timer completion that is already queued must not call into this
+		// object any more
+		m_alive.reset();
+
 		// complete outstanding lookups with operation_aborted, as the other
 		// I/O objects do, instead of silently dropping their handlers
 		cancel();
+	}
+
+	template<typename Protocol>
+	void basic_resolver<Protocol>::wait_for_front()
+	{
+		std::weak_ptr<bool> alive = m_alive;
+		m_timer.expires_at(m_queue.front().completion_time);
+		m_timer.async_wait(aux::make_malloc([this, alive](boost::system::error_code const& ec)
+		{
+			if (alive.expired()) return;
+			on_lookup(ec);
+		}));
 	}
 
 	template<typename Protocol>
@@ -84,8 +100,7 @@ namespace ip {
 			auto const pos = std::find_if(m_queue.begin(), m_queue.end()
 				, [&](result_t const& r) { return r.completion_time > t; });
 			m_queue.insert(pos, std::move(res));
-			m_timer.expires_at(m_queue.front().completion_time);
-			m_timer.async_wait(aux::make_malloc(std::bind(&basic_resolver::on_lookup, this, _1)));
+			wait_for_front();
 			return;
 		}
 		ec.clear();
@@ -110,8 +125,7 @@ namespace ip {
 		result_t res{ completion_time, ec, std::move(ips), std::move(handler)};
 		m_queue.emplace_back(std::move(res));
 
-		m_timer.expires_at(m_queue.front().completion_time);
-		m_timer.async_wait(aux::make_malloc(std::bind(&basic_resolver::on_lookup, this, _1)));
+		wait_for_front();
 	}
 
 	template<typename Protocol>
@@ -125,8 +139,7 @@ namespace ip {
 		// since the timer fired. Don't complete a lookup before it's due
 		if (m_queue.front().completion_time > chrono::high_resolution_clock::now())
 		{
-			m_timer.expires_at(m_queue.front().completion_time);
-			m_timer.async_wait(aux::make_malloc(std::bind(&basic_resolver::on_lookup, this, _1)));
+			wait_for_front();
 			return;
 		}
 
@@ -140,8 +153,7 @@ namespace ip {
 		// lookup before calling it.
 		if (!m_queue.empty())
 		{
-			m_timer.expires_at(m_queue.front().completion_time);
-			m_timer.async_wait(aux::make_malloc(std::bind(&basic_resolver::on_lookup, this, _1)));
+			wait_for_front();
 		}
 		v.handler(v.err, std::move(v.ips));
 	}
